@@ -28,21 +28,12 @@ const (
 	clsOther   = "unclassified"
 )
 
-var allClasses = []string{clsSwap, clsUnknown, clsWiden, clsDefault, clsDup, clsBigInt}
-
 type field struct {
 	num int
 	wt  int
 	tag []byte // raw tag varint
 	ln  []byte // raw length varint (wire type 2 only)
 	val []byte // raw value: varint bytes (0), 8 bytes (1), content (2), 4 bytes (5)
-}
-
-func (f field) raw() []byte {
-	r := make([]byte, 0, len(f.tag)+len(f.ln)+len(f.val))
-	r = append(r, f.tag...)
-	r = append(r, f.ln...)
-	return append(r, f.val...)
 }
 
 func join(fs []field) []byte {
